@@ -33,8 +33,8 @@ EXPLANATION = (
     'merged unconditionally), unknown -w/-b namespaces and unknown -a names each reach '
     'sys.exit(1) before Compiler(...) is constructed; `:all` keeps the other given names. '
     'Decides these structural parts; argparse behaviour itself is trusted.'
-    ' RD (decision drift, stonelint.conddrift): the tests of the functions this property is anchored in (stonelint.ownership) are compared with reference/conditions.json; a relation, polarity or connective changed over the same operands, or an operand purely added or dropped, is a violation; re-spellings and new or removed tests are not claimed.'
-    " RE (expression drift, stonelint.exprdrift): the same functions' attribute names, variable reads, simple statements, calls and arithmetic/slice literals are compared with reference/expressions.json; a substituted attribute or variable, a dropped call or assignment, swapped arguments or a changed literal is a violation; any other edit is not claimed. RC (call-condition drift, stonelint.conddrift.run_calls): for every call of a repository or imported-library function in those functions, the path conditions of its occurrences are compared with reference/conditions.json by truth table; an assignment under which the function used to make the call and now completes without it is a violation (tests on memo tables, emptiness of the iterated collection and earlier refusals excepted; re-spelled conditions are not claimed). MK (memo-key rule, stonelint.memo): a memo table or done-set the reference tree does not have must be keyed by every access path the skipped code reads, injectively and type-aware."
+    ' RD (effect-condition drift, stonelint.effects): for the functions this property is anchored in (stonelint.ownership) the path formula of every raise / return / continue / break / assignment / call statement is compared with reference/effects.json by truth table over the leaf tests (so nested vs merged tests, guard clauses vs if/else ladders, De Morgan forms read alike); an effect lost on a path, or a control effect gained on one, is a violation; changed texts and re-spelled tests are not claimed.'
+    " RE (expression drift, stonelint.exprdrift): the same functions' attribute names, variable reads, simple statements, calls and arithmetic/slice literals are compared with reference/expressions.json; a substituted attribute or variable, a dropped call or assignment, swapped arguments or a changed literal is a violation; any other edit is not claimed. RC (call-condition drift, stonelint.effects.run_calls): for every call of a repository or imported-library function in those functions, the path conditions of its occurrences are compared with reference/effects.json by truth table; an assignment under which the function used to make the call and now completes without it is a violation (tests on memo tables, emptiness of the iterated collection and earlier refusals excepted; re-spelled conditions are not claimed). MK (memo-key rule, stonelint.memo): a memo table or done-set the reference tree does not have must be keyed by every access path the skipped code reads, injectively and type-aware."
     ' GR (stonelint.grammar): the filter grammar (BNF docstrings, precedence) and the filter lexer tables (token regexes, keyword table, ignored characters) are extracted with ast; well-formedness, p[k] bounds, and against reference/grammar.json the token-level language (witness sentence on which the two LALR tables disagree) and the first token on every probe text (witness text).')
 ASSUMPTIONS = [
     'yacc precedence semantics: entries later in the precedence tuple bind tighter; on a '
@@ -368,12 +368,12 @@ def run(pm, ctx):
     ctx.check('C19-R4', n_app == 2, 'syntax errors and unexpected end are recorded', perr.loc,
               msg='p_error records %d kinds of error' % n_app, key='C19-R4|%s' % perr.qualname)
 
-    from ..conddrift import run_decisions
+    from ..effects import run_decisions
     from ..ownership import OWN
     run_decisions(pm, ctx, 'C19-RD', OWN['C19'])
     from .. import exprdrift
     exprdrift.run(pm, ctx, 'C19-RE', OWN['C19'])
-    from ..conddrift import run_calls
+    from ..effects import run_calls
     run_calls(pm, ctx, 'C19-RC', OWN['C19'])
     from .. import memo
     memo.run(pm, ctx, 'C19-MK', OWN['C19'])
